@@ -29,6 +29,8 @@ Record c19_step := St {
   s_listing : list bytes;                  (* auto.ListStyles() *)
   s_qs : list c19_query }.
 
+(* k_bad: the child crashed, or (burst worlds) one of the throw-away bursts the
+   harness judges on the spot after the recorded part lost a registration *)
 Record c19_case := mkC19 { k_bad : bool; k_init : registry; k_steps : list c19_step }.
 
 (* direct Render() of the good table by the four other packages: the harness
